@@ -17,11 +17,14 @@ import torch
 
 from tjv.rt import gen
 from tjv.rt.aggs import constant_weights
-from ._autojac import choose_inputs, mtl_kwargs, n_rows, set_pregrads
+from ._autojac import as_container, choose_inputs, mtl_kwargs, n_rows, set_pregrads
 
 RULE = ("random program (gen.build / gen.build_mtl as in C01 / C02) x linear aggregator (Constant(w) with w "
         "signed-with-zeros / uniform(-2,2) / one-hot / all-zero, Sum, Mean) x subset and order of inputs (backward) "
-        "or explicit / defaulted parameter lists (mtl) x chunk size x pre-existing .grad x dtype; oracle = "
+        "or explicit / defaulted parameter lists (mtl) x kind of iterable used for inputs / shared_params / each "
+        "tasks_params entry (list, tuple, dict keys, and the one-shot kinds iter(list) and generator) x leaves in "
+        "contiguous / permuted / strided / expanded layouts x dead outputs / losses (multiplied by 0.0: exactly "
+        "zero rows of the Jacobian next to non-zero ones) x chunk size x pre-existing .grad x dtype; oracle = "
         "torch.autograd on a twin graph, never the aggregator. distinct = (program trace, aggregator, weights, "
         "chunk, inputs); non-trivial = >=2 rows with non-zero weight whose Jacobian rows are non-zero and "
         "different, i.e. the weights matter")
@@ -35,6 +38,7 @@ AGGS = [("Constant", "signed"), ("Constant", "rand"), ("Sum", None), ("Mean", No
 def cases(tier, seed, focus=None):
     n = 240 if tier == "quick" else 6000
     rng = random.Random(5000 + seed)
+    rng2 = random.Random(5005000 + seed)  # stream of the later families (the earlier cases are kept as they were)
     for i in range(n):
         fn = "backward" if i % 5 < 3 else "mtl"
         name, kind = AGGS[(i // 5 * 3 + i % 5) % len(AGGS)]
@@ -46,11 +50,32 @@ def cases(tier, seed, focus=None):
             prog = {"seed": rng.randrange(10**9), "n_shared": rng.randint(1, 3), "n_features": rng.randint(1, 3),
                     "n_tasks": rng.randint(1, 4), "dtype": dtype, "overlap": rng.random() < 0.6,
                     "empty_task": rng.random() < 0.5, "feat_shapes": "any", "trunk": rng.choice(["dense", "sparse"])}
-        yield {"fn": fn, "prog": prog, "agg": name, "wkind": kind, "wseed": rng.randrange(10**6),
-               "chunk": rng.choice([None, 1, 2, 3, "R", "R+1"]), "inputs": rng.choice(["all", "subset", "subset"]),
-               "sel_seed": rng.randrange(10**6), "pre": rng.choice(["none", "some", "all"]),
-               "tp": rng.choice(["list", "list", "default"]), "sp": rng.choice(["list", "list", "default"]),
-               "retain": rng.random() < 0.3}
+        case = {"fn": fn, "prog": prog, "agg": name, "wkind": kind, "wseed": rng.randrange(10**6),
+                "chunk": rng.choice([None, 1, 2, 3, "R", "R+1"]), "inputs": rng.choice(["all", "subset", "subset"]),
+                "sel_seed": rng.randrange(10**6), "pre": rng.choice(["none", "some", "all"]),
+                "tp": rng.choice(["list", "list", "default"]), "sp": rng.choice(["list", "list", "default"]),
+                "retain": rng.random() < 0.3, "inputs_as": "list"}
+        r2 = random.Random(rng2.randrange(10**9))
+        if i % 2 == 1:  # other kinds of iterables, the one-shot ones in particular
+            case["inputs_as"] = r2.choice(ONE_SHOT + ONE_SHOT + ["tuple", "dictkeys"])
+            case["tp"] = r2.choice(ONE_SHOT + ONE_SHOT + ["tuple", "dictkeys", "default"])
+            case["sp"] = r2.choice(ONE_SHOT + ONE_SHOT + ["tuple", "dictkeys", "default"])
+        if i % 4 == 2:  # dead outputs / losses: exactly zero rows of the Jacobian next to non-zero ones
+            case["dead"] = [r2.randrange(6) for _ in range(r2.choice([1, 1, 2]))]
+        yield case
+
+
+ONE_SHOT = ["iter", "gen"]
+
+
+def _kill(tensors: list, dead) -> None:
+    """Multiplies the tensors at the positions ``dead`` (modulo the length) by 0.0, in place in the list; at least
+    one tensor stays alive when there are several."""
+    pos = sorted({d % len(tensors) for d in dead or []})
+    if len(pos) == len(tensors):
+        pos = pos[1:]
+    for j in pos:
+        tensors[j] = tensors[j] * 0.0
 
 
 def _weights(case, m, dtype):
@@ -84,18 +109,23 @@ def run_case(case):
     fn = case["fn"]
     if fn == "backward":
         p1, p2 = gen.build(case["prog"]), gen.build(case["prog"])
+        _kill(p1.outputs, case.get("dead"))
+        _kill(p2.outputs, case.get("dead"))
         leaves1, leaves2 = p1.leaves, p2.leaves
         m = n_rows(p1.outputs)
         dtype = p1.outputs[0].dtype
     else:
         p1, p2 = gen.build_mtl(case["prog"]), gen.build_mtl(case["prog"])
+        _kill(p1.losses, case.get("dead"))
+        _kill(p2.losses, case.get("dead"))
         leaves1, leaves2 = p1.all_leaves(), p2.all_leaves()
         m = len(p1.losses)
         dtype = p1.losses[0].dtype
     w = _weights(case, m, dtype)
     chunk = {"R": m, "R+1": m + 1}.get(case["chunk"], case["chunk"])
     sig = (f"{fn}|" + "|".join(p1.desc) + f"|{case['agg']}{case['wkind']}{case['wseed']}|{chunk}|{case['inputs']}"
-           f"{case['sel_seed']}|{case['tp']}{case['sp']}|{case['pre']}")
+           f"{case['sel_seed']}|{case['tp']}{case['sp']}{case.get('inputs_as', 'list')}|{case['pre']}"
+           f"|dead{case.get('dead')}")
     set_pregrads(leaves1, case["sel_seed"], case["pre"])
     set_pregrads(leaves2, case["sel_seed"], case["pre"])
     pre_mag = max([1.0] + [float(t.grad.abs().max()) for t in leaves2 if t.grad is not None and t.grad.numel()])
@@ -105,7 +135,8 @@ def run_case(case):
     try:
         if fn == "backward":
             idx = choose_inputs(p1, case["sel_seed"], case["inputs"])
-            backward(p1.outputs, _aggregator(case, w), inputs=[p1.grad_leaves[i] for i in idx],
+            backward(p1.outputs, _aggregator(case, w),
+                     inputs=as_container([p1.grad_leaves[i] for i in idx], case.get("inputs_as", "list")),
                      retain_graph=case["retain"], parallel_chunk_size=chunk)
         else:
             mtl_backward(aggregator=_aggregator(case, w), retain_graph=case["retain"], parallel_chunk_size=chunk,
